@@ -1,17 +1,23 @@
 #!/bin/bash
 # re-run, for every seeded change that still applies to /repo's HEAD, the checks that are on
-# record as catching it; prints one line per (seed, property).  /repo is restored afterwards.
+# record as catching it (RECHECK_PRIMARY=1: only the seed's own property); prints one line per
+# (seed, property).  /repo is never touched: the change is applied in a scratch worktree of
+# /repo's HEAD and the checks are pointed at it through CNTGS_REPO.
 cd /verif
+wt=/tmp/recheck_wt
+git -C /repo worktree remove --force $wt 2>/dev/null; git -C /repo worktree prune
+git -C /repo worktree add -f $wt HEAD >/dev/null 2>&1 || { echo "cannot create $wt"; exit 1; }
 for d in seeded/*/; do
   id=$(basename $d)
-  props=$(python3 -c "import json;print(' '.join(json.load(open('$d/meta.json'))['caught_by']))")
-  if ! git -C /repo apply --check /verif/$d/patch.diff 2>/dev/null; then echo "$id: patch no longer applies to HEAD (library changed at that site)"; continue; fi
-  git -C /repo apply /verif/$d/patch.diff
+  props=$(python3 -c "import json;d=json.load(open('$d/meta.json'));c=d['caught_by'];print(' '.join(c[:1] if '$RECHECK_PRIMARY' else c))")
+  git -C $wt checkout -q -- . 
+  if ! git -C $wt apply --check /verif/$d/patch.diff 2>/dev/null; then echo "$id: patch no longer applies to HEAD (library changed at that site)"; continue; fi
+  git -C $wt apply /verif/$d/patch.diff
   for p in $props; do
-    out=$(python3 tools/check.py --property $p --skip-proof 2>&1)
+    out=$(CNTGS_REPO=$wt python3 tools/check.py --property $p --skip-proof 2>&1)
     n=$(echo "$out" | grep -c '^VIOLATION'); nf=$(echo "$out" | grep '^VIOLATION' | grep -vc 'no-failing-input-found')
     echo "$id: $p -> $n VIOLATION lines ($nf with a concrete failing input)"
   done
-  git -C /repo checkout -- .
 done
+git -C /repo worktree remove --force $wt; git -C /repo worktree prune
 git -C /repo status --short | head -3
